@@ -446,6 +446,7 @@ def run(run):
         run.count()
         if r:
             results.append(r)
+    compressed_runs(run, ct, rng, quick)
     judge(run, results)
     run.cov["rule"] = ("schedules = report orders enumerated by TLC from HyperOpt.tla (7 trials, window 5; quick: 140 sampled, "
                        "thorough: all) forced on the real HyperOptimizer through a fake pool, x scripted failing trials x 5 "
@@ -453,6 +454,47 @@ def run(run):
                        "optimisation libraries, real thread pools; distinct by (mode, schedule, failing set, options, network)")
     run.assumptions += ["process pools (loky / concurrent.futures) are exercised in the thorough tier only",
                         "trial identity is carried by a `tag` hyper-parameter of the scripted method `verif`"]
+
+
+def compressed_runs(run, ct, rng, quick):
+    """HyperCompressedOptimizer: the figures recorded for the winner are the compressed figures of the returned tree at the
+    bond dimension in force - the given chi, or (chi=None) the square of the largest dimension OF THE NETWORK ASKED ABOUT.
+    Networks with different largest dimensions are asked about one after the other in this process."""
+    SIZEKEY = {"peak-compressed": "peak_size", "size-compressed": "max_size", "write-compressed": "write"}
+    nets_small = [nets.ordinary_net(rng, n=rng.randint(4, 6), maxdim=2, n_out=rng.choice([0, 1]), hyper=False) for _ in range(3)]
+    nets_big = [nets.ordinary_net(rng, n=rng.randint(4, 6), maxdim=4, n_out=rng.choice([0, 1]), hyper=False) for _ in range(3)]
+    for _ in range(4 if quick else 40):
+        seqn = [rng.choice(nets_small), rng.choice(nets_big)]
+        rng.shuffle(seqn)
+        mz = rng.choice(list(SIZEKEY))
+        chi_opt = rng.choice([None, None, 4, 16])
+        for net in seqn:
+            d = {"net": net.to_json(), "minimize": mz, "chi": chi_opt, "mode": "compressed"}
+            run.count()
+            run.nontrivial(("compressed", net.eq(), str(net.dims), mz, chi_opt, rng.random()))
+            try:
+                with core.watchdog(180):
+                    opt = ct.HyperCompressedOptimizer(chi=chi_opt, minimize=mz, methods=["greedy-compressed", "greedy-span"],
+                                                      max_repeats=3, parallel=False, optlib="random", on_trial_error="raise")
+                    tree = opt.search(net.c_inputs(), net.c_output(), net.c_sizes())
+                    chi = chi_opt if chi_opt is not None else max(net.dims) ** 2
+                    st = tree.compressed_contract_stats(chi=chi, compress_late=False)
+            except Exception as e:
+                run.violation(f"HyperCompressedOptimizer raised {core.exc_text(e)} eq={net.eq()} minimize={mz} chi={chi_opt}", d,
+                              tags={"mode:compressed", "raised"})
+                continue
+            b = opt.best
+            want = {"flops": st.flops, "write": st.write, "size": getattr(st, SIZEKEY[mz])}
+            for k_, w_ in want.items():
+                if b.get(k_) != w_:
+                    run.violation(f"HyperCompressedOptimizer(chi={chi_opt}, minimize={mz}): recorded {k_} of the winning trial "
+                                  f"{b.get(k_)} != {w_} of the returned tree at chi={chi} | eq={net.eq()} dims={net.dims} "
+                                  f"(networks asked about in this process before: {[n_.eq() for n_ in seqn[:seqn.index(net)]]})", d,
+                                  tags={"mode:compressed", "figures"})
+                    break
+            fin = [x for x in opt.scores if x != float("inf")]
+            if fin and b["score"] != min(fin):
+                run.violation("HyperCompressedOptimizer: best score is not the minimum over the trials", d, tags={"mode:compressed", "figures"})
 
 
 def judge(run, results):
